@@ -8,7 +8,7 @@
      *rt implements Unmarshaler   -> env[prefix] set: allocate if nil, UnmarshalEnv(prefix, value)
                                      else some key has the prefix  prefix+"_"  (after fix 9cf7e78; the
                                      pinned code tested the prefix WITHOUT separator: [legacy = true]):
-                                        UnmarshalEnv(prefix, "")  on the (possibly nil) receiver
+                                        allocate if nil (fix e0b1164), UnmarshalEnv(prefix, "")
      string/int/uint/float64/bool -> env[prefix] set: allocate if nil, parse, set
      map                          -> every key  prefix_<K>[_...]  with K non-empty and K = ToUpper(K):
                                      make the map if nil, entry ToLower(K): allocate if missing/nil,
@@ -179,13 +179,12 @@ Inductive value :=
 with vals := VNil | VCons (v : value) (vs : vals)
 with ments := MNil | MCons (k : str) (v : value) (m : ments).   (* entry values are VPtr *)
 
-Inductive result (A : Type) := Ok (a : A) | Err | Panic | NilRecv | Stuck.
-Arguments Ok {A} a. Arguments Err {A}. Arguments Panic {A}. Arguments NilRecv {A}. Arguments Stuck {A}.
-(* Err: the loader returns an error; Panic: it panics; NilRecv: UnmarshalEnv is called on a nil receiver
-   (panic or error, depending on the type); Stuck: ill-typed value or fuel exhausted (model artefact). *)
+Inductive result (A : Type) := Ok (a : A) | Err | Panic | Stuck.
+Arguments Ok {A} a. Arguments Err {A}. Arguments Panic {A}. Arguments Stuck {A}.
+(* Err: the loader returns an error; Panic: it panics; Stuck: ill-typed value or fuel exhausted (model artefact). *)
 
 Definition bind {A B} (r : result A) (f : A -> result B) : result B :=
-  match r with Ok a => f a | Err => Err | Panic => Panic | NilRecv => NilRecv | Stuck => Stuck end.
+  match r with Ok a => f a | Err => Err | Panic => Panic | Stuck => Stuck end.
 
 (* external behaviour: the text -> value functions of the Unmarshaler types and of strconv.ParseFloat *)
 Record oracles := {
@@ -280,10 +279,8 @@ Fixpoint loadp (t : ty) (E : env) (p : str) (o : option value) {struct t} : resu
       | Some ev => match cparse OR k ev with Some c => Ok (Some (VCustom c)) | None => Err end
       | None =>
           if has_key_with_prefix E (if legacy then p else p ++ [US]) then
-            match o with
-            | None => NilRecv
-            | Some _ => match cparse OR k [] with Some c => Ok (Some (VCustom c)) | None => Err end
-            end
+            (* a nil pointer is allocated first (fix e0b1164) *)
+            match cparse OR k [] with Some c => Ok (Some (VCustom c)) | None => Err end
           else Ok o
       end
   | THook fs =>
@@ -299,7 +296,7 @@ Fixpoint loadp (t : ty) (E : env) (p : str) (o : option value) {struct t} : resu
       | None =>
           if has_key_with_prefix E (if legacy then p else p ++ [US]) then
             match o with
-            | None => Panic
+            | None => run None
             | Some (VHook hv) => run hv
             | Some _ => Stuck
             end
